@@ -48,7 +48,8 @@ def run(ctx):
         evaluations=stops,
         distinct_nontrivial=fw.distinct_nontrivial(cases),
         rule="plans from harness/plangen (1-3 blocks, 1-3 sequences, 1-3 actions, each of the 10 check groups with p in {.15,.4,.7,1}), "
-             "then nil/empty slices injected; for each plan the walk is run with a consumer stopping at every position k=1..n+1 and never; "
+             "then nil/empty slices injected; object IDs stamped (1/4 all nil, 1/4 all distinct, 1/2 with 2-4 different objects SHARING one non-nil id: two actions, two sequences, "
+             "a block and a group, an object and its own child, a random handful - the walk must not look at ids); for each plan the walk is run with a consumer stopping at every position k=1..n+1 and never; "
              "every walk is read twice: each Item abstracted inside the consumer, and the Item values kept (Chain not copied) and abstracted after the walk returned "
              "(aliased chains); ONE walk.Plan(p) value per plan is walked again and again (stopped at k then in full for k = 1, middle, last; full twice; "
              "two goroutines at once, full+full and stopped+full; full once more) and every one of these walks goes to the model too; "
@@ -64,6 +65,7 @@ def run(ctx):
         changes=fw.histogram(c["dist"].get("change", "none") for c in cases if c["kind"] != "walk"),
         distribution=dict(objects=fw.histogram(c["dist"]["objects"] for c in base),
                           blocks=fw.histogram(c["dist"]["blocks"] for c in base),
+                          ids=fw.histogram(c["dist"].get("ids", "?") for c in base),
                           max_sequences_with_actions_in_a_block=fw.histogram(c["dist"]["seqs_with_actions"] for c in base),
                           walks_of_one_seq_value_per_plan=fw.histogram(c["dist"]["same_seq_walks"] for c in base),
                           kept_reading_differs_from_in_loop=fw.histogram(c["dist"]["kept_differs"] for c in base),
